@@ -35,6 +35,7 @@ type extraEngine func(p *Program, res *CheckResult)
 
 var extraEngines = map[string][]extraEngine{
 	"C11": {wireEngineFor("roundtrip", func(o *Obligation) bool { return !strings.Contains(o.Name, "/dec-any/") })},
+	"C12": {domainSepEngine},
 	"C10": {wireEngineFor("total", func(o *Obligation) bool { return strings.Contains(o.Name, "/dec-any/") })},
 }
 
